@@ -1106,3 +1106,134 @@ def config(F, R):
             ok = has_try == (not want)
             R.ob('C12.config', ok, {'func': f.q, 'contains_try': has_try, 'no_exception_thrown': want})
             if not ok: R.find('C12.config', f, 'try:' + f.n, 'machine %s %s no_exception_thrown but %s %s a try block' % (Facts.short(m.fe, 50), 'declares' if want else 'does not declare', f.n, 'contains' if has_try else 'has no'), instance=Facts.short(m.fe, 120))
+
+def FKEY(F, f):
+    if not hasattr(F, '_revkey'): F._revkey = {id(v): k for k, v in F.bykey.items()}
+    return F._revkey.get(id(f))
+
+@rule('fpatable')
+def fpatable(F, R):
+    """C13.fpa (backmp11, function_pointer_array strategy): the evaluated constexpr cell table of dispatch_table<SM,Event> holds, at
+    the state id of every merged transition's source state, that transition's executor (through the Kleene converter when its
+    trigger is a Kleene type) and a null cell everywhere else - i.e. it dispatches exactly what the flat_fold strategy dispatches
+    from the same merged_transitions (whose content C01.plan compares with the declarations)."""
+    from rules_core import backend_of
+    M = Model(F)
+    ids = {}
+    for f in F.funcs:
+        if f.n == 'get_state_id' and f.cls == 'state_machine_base' and backend_of(f) == 'backmp11' and f.blocks:
+            ca = f.cls_args('state_machine_base'); ta = f.targs()
+            if ca and len(ca) >= 3 and ta:
+                v = F.const_return(FKEY(F, f))
+                if v is not None: ids[(strip_cvref(str(ca[2])), strip_cvref(str(ta[0])))] = v
+    for r in F.records:
+        if r['n'] != 'dispatch_impl' or not r.get('ptabs') or not r['loc'].startswith('boost/msm/backmp11/'): continue
+        comps = components(F.strs[r['t']])
+        dt = [c for c in comps if c[0].split('::')[-1] == 'dispatch_table' and c[1]]
+        if not dt or not r['bases']: continue
+        sm_t = strip_cvref(dt[-1][1][0]); ev = strip_cvref(dt[-1][1][1])
+        base = F.rec_by_type(F.strs[r['bases'][0]['t']])
+        if base is None or 'merged_transitions' not in base['tds']: continue
+        cells = list(r['ptabs'].values())[0]
+        R.anchor('fpa-table')
+        expect = {}; unknown = False
+        for tr in (type_list(F.strs[base['tds']['merged_transitions']]) or []):
+            rec = F.rec_by_type(tr)
+            if rec is None or 'current_state_type' not in rec['tds']: unknown = True; continue
+            st = strip_cvref(F.strs[rec['tds']['current_state_type']])
+            te = strip_cvref(F.strs[rec['tds']['transition_event']]) if 'transition_event' in rec['tds'] else ev
+            sid = ids.get((sm_t, st))
+            if sid is None: unknown = True; continue
+            expect[sid] = (tr, M.is_kleene(te))
+        if unknown:
+            R.note('fpa table of %s / %s: state ids or transition records not available, not compared' % (Facts.short(sm_t, 60), Facts.short(ev, 30))); continue
+        bad = []
+        for i, c in enumerate(cells):
+            e = expect.get(i)
+            if e is None:
+                if c is not None: bad.append('cell %d holds %s but no transition leaves the state with that id on this event' % (i, c if isinstance(c, str) else c.get('n')))
+                continue
+            tr, kle = e
+            if c is None or isinstance(c, str): bad.append('cell %d is empty but the merged transitions contain %s' % (i, Facts.short(tr, 80))); continue
+            if kle: ok = c['n'] == 'convert_event_and_execute' and [strip_cvref(F.strs[t]) for t in c.get('ta', [])][:1] == [strip_cvref(tr)]
+            else: ok = c['n'] == 'execute' and strip_cvref(F.strs[c['pt']]) == strip_cvref(tr)
+            if not ok: bad.append('cell %d holds %s of %s, expected the executor of %s' % (i, c['n'], Facts.short(F.strs[c['pt']], 80) if 'pt' in c else '?', Facts.short(tr, 80)))
+        for sid in expect:
+            if sid >= len(cells): bad.append('state id %d is beyond the table (%d cells)' % (sid, len(cells)))
+        R.ob('C13.fpa', not bad, {'machine': Facts.short(sm_t, 60), 'event': Facts.short(ev, 30), 'cells': len(cells), 'filled': len(expect)})
+        if bad:
+            R.find('C13.fpa', ('boost/msm/backmp11/detail/favor_runtime_speed.hpp', 'boost::msm::backmp11::detail::compile_policy_impl::dispatch_table::dispatch_impl<function_pointer_array>'), 'cells', 'function_pointer_array table for %s on %s: %s' % (Facts.short(sm_t, 60), Facts.short(ev, 30), '; '.join(bad[:3])), where=r['loc'], instance='%s / %s' % (Facts.short(sm_t, 100), Facts.short(ev, 40)))
+    # the two dispatch functions themselves
+    for f in F.funcs:
+        if backend_of(f) != 'backmp11' or not f.blocks: continue
+        # flat_fold: one closure instance per merged transition T: if (active id == id of T's source) result = T's executor(sm, region_id, event)
+        ctx = f.d['ctx']
+        if f.n == 'operator()' and len(ctx) >= 3 and ctx[-2].get('f') == 'dispatch' and ctx[-3].get('c') == 'dispatch_impl' and 'lck' in ctx[-1]:
+            pt = f.param_types()
+            if not pt: continue
+            T = strip_cvref(pt[0])
+            rec = F.rec_by_type(T)
+            if rec is None or 'current_state_type' not in rec['tds']: continue
+            st = strip_cvref(F.strs[rec['tds']['current_state_type']])
+            R.seen(f); R.anchor('flat-fold-step')
+            why = []
+            ex = [(i, n) for i, n in f.calls() if n.get('n') in ('execute', 'convert_event_and_execute')]
+            if len(ex) != 1: why.append('%d executor calls' % len(ex))
+            else:
+                i, n = ex[0]
+                if n['n'] == 'execute' and strip_cvref(F.strs[n['pt']]) != T: why.append('executes %s instead of its own transition' % Facts.short(F.strs[n['pt']], 60))
+                if n['n'] == 'convert_event_and_execute' and [strip_cvref(F.strs[a['t']]) for a in n.get('ta', []) if isinstance(a, dict) and 't' in a][:1] != [T]: why.append('converts for another transition')
+                asg = [m for m in f.nodes if m and m['k'] == 'asg' and m['rhs'] == i and (f.nodes[m['lhs']] or {}).get('n') == 'result']
+                if not asg: why.append('the executor\'s result is not stored in the captured result')
+            # the comparison guarding it: active id == id of the transition's source state
+            cmp_ok = False
+            for b in f.blocks:
+                if not b.get('tc'): continue
+                c = f.nodes[b['tc']]
+                if c and c['k'] == 'bin' and c['op'] == '==':
+                    for side in (c['lhs'], c['rhs']):
+                        x = f.nodes[side]
+                        while x and x['k'] in ('icast', 'cast'): x = f.nodes[x['e']]
+                        if x and x['k'] == 'ref' and x.get('dk') == 'local':
+                            for dn in f.nodes:
+                                if dn and dn['k'] == 'decl':
+                                    for v in dn['vars']:
+                                        if v['n'] == x['n'] and v.get('hasinit'):
+                                            iv = f.nodes[v['init']]
+                                            while iv and iv['k'] in ('icast', 'cast'): iv = f.nodes[iv['e']]
+                                            if iv and iv['k'] == 'call' and iv.get('n') == 'get_state_id' and iv.get('ta') and strip_cvref(F.strs[iv['ta'][0]['t']]) == st: cmp_ok = True
+            if not cmp_ok: why.append('the executor is not guarded by "active state id == id of the transition\'s source state"')
+            R.ob('C13.fpa', not why, {'func': f.q, 'transition': Facts.short(T, 80)})
+            if why: R.find('C13.fpa', f, 'flat-fold', 'flat_fold step for %s: %s' % (Facts.short(T, 80), '; '.join(why)), instance=Facts.short(T, 160))
+            continue
+        if f.cls == 'dispatch_impl' and f.n == 'dispatch':
+            strat = ' '.join(str(x) for x in (f.cls_args('dispatch_impl') or []))
+            if 'function_pointer_array' in strat:
+                R.seen(f); R.anchor('fpa-dispatch')
+                from rules_rtc import active_index
+                # cell = cells[m_active_state_ids[region_id]]; called with (sm, region_id, event); else HANDLED_FALSE
+                pn = [p['n'] for p in f.d['params']]
+                ind = [n for i, n in f.calls() if 'fk' not in n and n.get('fn')]
+                ok = len(ind) == 1
+                if ok:
+                    got = []
+                    for a in ind[0]['args']:
+                        x = f.nodes[a]
+                        while x and x['k'] in ('icast', 'cast'): x = f.nodes[x['e']]
+                        got.append(x['n'] if x and x['k'] == 'ref' else None)
+                    ok = got == pn
+                # the cell index is the region's active state id
+                reads_active = False
+                for i2, n2 in enumerate(f.nodes):
+                    if not n2: continue
+                    idx = None
+                    if n2['k'] == 'sub': idx = n2['i']
+                    elif n2['k'] == 'call' and n2.get('op') == '[]' and n2.get('args'): idx = n2['args'][-1]
+                    if idx is None or active_index(f, i2): continue
+                    from rules_order import dependency_closure
+                    for d in dependency_closure(f, idx):
+                        if f.nodes[d] and f.nodes[d]['k'] in ('sub', 'call') and active_index(f, d): reads_active = True
+                rets = {f.expr(n['e']) for n in f.nodes if n and n['k'] == 'ret' and n.get('e')}
+                ok = ok and reads_active and any('HANDLED_FALSE' in x for x in rets)
+                R.ob('C13.fpa', ok, {'func': f.q})
+                if not ok: R.find('C13.fpa', f, 'dispatch', 'function_pointer_array dispatch must call the cell of the region\'s active state with (sm, region_id, event) and answer HANDLED_FALSE for an empty cell')
